@@ -4,5 +4,5 @@ export GOFLAGS=-mod=mod GOPROXY=off GOSUMDB=off GOTOOLCHAIN=local
 n=$1; props=${2:-$(cat /verif/refactors/$n/result.txt | tr ' ' '\n' | grep : | cut -d: -f1 | tr '\n' ' ')}
 S=$(mktemp -d /tmp/rf1.XXXXXX); mkdir -p $S/repo && git -C /repo archive HEAD | tar -x -C $S/repo; mkdir -p $S/verif/evidence; cp /verif/known_findings.txt $S/verif/
 (cd $S/repo && patch -s -p1 < /verif/refactors/$n/patch.diff) || { echo "patch failed"; rm -rf $S; exit 2; }
-for p in $props; do /verif/bin/gmsmcheck -repo $S/repo -verif $S/verif -property $p 2>&1 | grep -E "\[(violated|undecided|anchor-missing)\]|SUMMARY" | cut -c1-${COLS:-330} | sed "s#$S/repo/##g"; done
+for p in $props; do ${BIN:-${BIN:-${BIN:-/verif/bin/gmsmcheck}}} -repo $S/repo -verif $S/verif -property $p 2>&1 | grep -E "\[(violated|undecided|anchor-missing)\]|SUMMARY" | cut -c1-${COLS:-330} | sed "s#$S/repo/##g"; done
 rm -rf $S
